@@ -521,7 +521,29 @@ protected:
 
         m_entries.splice(m_entries.end(), m_freeEntries, --m_freeEntries.end());
 
-        m_buckets[index].push_back(--m_entries.end());
+        try
+        {
+            m_buckets[index].push_back(--m_entries.end());
+        }
+        catch(...)
+        {
+            // The bucket could not grow, so take the entry out again,
+            // or it would be in the list without being counted, or
+            // reachable through a bucket.
+            const EntryListIterator     theEntry = --m_entries.end();
+
+            value_type&     theValue = *theEntry->value;
+#if defined(_MSC_VER) && _MSC_VER <= 1300
+            theValue.value_type::~value_type();
+#else
+            theValue.~value_type();
+#endif
+            theEntry->erased = true;
+
+            m_freeEntries.splice(m_freeEntries.end(), m_entries, theEntry);
+
+            throw;
+        }
 
         ++m_size;
 
